@@ -295,6 +295,9 @@ static void after_block(int id)
                "after a blocking call returns, only armed timers and undelivered notifications remain queued for the process");
 }
 
+/* the objects put into the object queue: #3 is NULL, #5 is the same object as #1 (a duplicate) */
+static void *otag_ptr(int tag) { return tag == 3 ? NULL : tag == 5 ? (void *)&otags[1] : (void *)&otags[tag]; }
+
 /* ------------------------------------------------------------------ condition predicates */
 static int proc_index(const struct cmb_process *pp) { for (int i = 0; i < NPROC; i++) if (P[i].p == pp) return i; return -1; }
 static bool cpred(const struct cmb_condition *cv, const struct cmb_process *pp, const void *ctx)
@@ -380,6 +383,13 @@ static void invariants(void)
     /* C12 */
     sym_assert(cmb_objectqueue_length(OQ) == (uint64_t)oq_n, "object queue length agrees with shadow");
     sym_assert(cmb_objectqueue_length(OQ) <= qcap, "object queue length within capacity");
+    for (int tg = 0; tg < oq_next && tg < 8; tg++) {
+        /* position query = 1 + index of the first queued occurrence of that object, 0 if it is not queued */
+        void *obj = otag_ptr(tg);
+        uint64_t want = 0;
+        for (int k = 0; k < oq_n && want == 0; k++) if (otag_ptr(oq_fifo[k]) == obj) want = (uint64_t)k + 1;
+        sym_assert(cmb_objectqueue_position(OQ, obj) == want, "object queue position query agrees with the delivery order");
+    }
     uint64_t nlive = 0; for (int k = 0; k < pq_n; k++) nlive += pq[k].live;
     sym_assert(cmb_priorityqueue_length(PQ) == nlive, "priority queue length agrees with shadow");
     sym_assert(cmb_priorityqueue_length(PQ) <= qcap, "priority queue length within capacity");
@@ -624,7 +634,7 @@ static void step(int id, int op)
         if (oq_next >= 8) break;
         int tag = oq_next++;
         P[id].waiting = W_OPUT; P[id].wait_since = now; P[id].wait_prio = P[id].prio;
-        int64_t r = cmb_objectqueue_put(OQ, tag == 3 ? NULL : (void *)&otags[tag]);   /* object #3 is NULL */
+        int64_t r = cmb_objectqueue_put(OQ, otag_ptr(tag));
         if (r == CMB_PROCESS_SUCCESS) { oq_fifo[oq_n++] = tag; check_service_order(id, W_OPUT, P[id].wait_since, now); }
         else account_signal(id, r, "objectqueue put");
         after_block(id);
@@ -638,7 +648,7 @@ static void step(int id, int op)
             check_service_order(id, W_OGET, P[id].wait_since, now);
             if (oq_n > 0) {
                 int tag = oq_fifo[0];
-                sym_assert(obj == (tag == 3 ? NULL : (void *)&otags[tag]), "object queue delivers in put order");
+                sym_assert(obj == otag_ptr(tag), "object queue delivers in put order");
                 for (int k = 1; k < oq_n; k++) oq_fifo[k - 1] = oq_fifo[k];
                 oq_n--;
             }
